@@ -562,7 +562,7 @@ static void integrateOpt(verif::Run& run, Sut& S, const State& init, const Cfg& 
 
 int main(int argc, char** argv) {
     verif::Run run("C21", argc, argv);
-    run.setDeadline(900, 9000);
+    run.setDeadline(900, 3600);
     if (const char* mv = getenv("C21_MAXV")) run.maxViolsPerKey = atoi(mv);
     const bool th = run.thorough();
     const int vs = (int)(((run.seed % 3) + 3) % 3);
